@@ -8,7 +8,7 @@
    [total = satsum caps] is the saturating sum the caller passes. *)
 From Coq Require Import String ZArith List Permutation.
 From Verif Require Import Base.GoInt Strategy.Model Strategy.ProofsBase Strategy.Proofs
-  Strategy.ProofsOk Strategy.ProofsOld Strategy.Glue Strategy.ProofsGlue.
+  Strategy.ProofsOk Strategy.ProofsOld Strategy.Glue Strategy.ProofsGlue Strategy.ModelW Strategy.ProofsW Strategy.ProofsW2.
 Local Open Scope Z_scope.
 
 Theorem C02_complete : forall infos need limit total,
@@ -65,3 +65,13 @@ Theorem C02_glue : forall caps order status need limit total,
      glue s need limit order status total = Err EInsufficientCapacity).
 Proof. exact glue_C02. Qed.
 Print Assumptions C02_glue.
+
+Theorem C02_complete_int64 : forall s need limit infos total,
+  NoDup (names infos) -> dom64 s need limit infos ->
+  s <> Other -> total = satsum (map cap infos) ->
+  (feasible s need limit infos = true -> exists p, is_plan (deployW s need limit infos total) p) /\
+  (feasible s need limit infos = false ->
+     deployW s need limit infos total = Err EInsufficientResource \/
+     deployW s need limit infos total = Err EInsufficientCapacity).
+Proof. exact C02_complete_W. Qed.
+Print Assumptions C02_complete_int64.
